@@ -224,7 +224,10 @@ def S(x): return [ord(c) for c in x]
 def V(v): return render_value(v)
 
 ENUM_SETS = [['a', 'b'], ['a'], ['a', 'b', 'x'], [1, 2], [1], [0, 1, 2, 5], [1, 'a'], [True, False], [1.0, 2.0], [1, 2.5], ['a', None], [1, None],
-             [True, 2], [0.5, 1.5]]
+             [True, 2], [0.5, 1.5],
+             # mixed-type candidate lists whose values are == across types (1 == 1.0 == True, 0 == 0.0 == False)
+             [1.0, 2], [1, 2.0], [True, 2.0], [1.0, False], [0.0, 1], [0, 1], [False, 1], [True, 0.0], [0.0, 1.0], [True, False, 2],
+             [1.0, 2, None], [0, 1.0, 'a'], [1, 2, 'a'], [True, 'a'], [1.0, 'a', None], [2, 1.0, True]]
 
 def canon(tree):
   """tree -> canonical tree of the constructed object, or None when the constructors refuse it."""
@@ -694,6 +697,16 @@ def classify_extend(kind_, c0, b, r, x=None, y=None, v=None):
   if kind_ == 'narrows':
     if isinstance(y, t.Tuple) and isinstance(x, t.Tuple) and y.fixed_length and len(y.elements) != y.min_size:
       return 'C04/extend-narrows/Tuple._extend/variable-sizes-meet', 'a variable-length Tuple whose sizes meet after extension keeps one element field and accepts 1-tuples'
+    def frozen_nested(u):
+      """a frozen nested Union candidate, one of whose own candidates accepts the value"""
+      for c in u.candidates:
+        if isinstance(c, t.Union):
+          if c.frozen and any((not isinstance(cc, t.Union)) and acc_py(cc, v) for cc in c.candidates): return True
+          if frozen_nested(c): return True
+      return False
+    if isinstance(x, t.Union) and frozen_nested(x):
+      return ('C04/extend-narrows/extend(Union)/candidate-inside-a-frozen-nested-union',
+              'Union.get_candidate descends into a nested Union candidate that is frozen and returns one of its candidates; extend checks the frozen flag of that candidate only, so the child extends it although the frozen nested Union lets nothing but its frozen value through')
     if isinstance(x, t.Union) and any(acc_py(c, v) for c in x.candidates):
       return ('C04/extend-narrows/extend(Union)/earlier-candidate-captures-value',
               'a spec extends the matching candidate of a Union base, but Union.apply hands the value to the first candidate whose value type matches (bool is an int, Any matches everything), which refuses it')
@@ -980,6 +993,7 @@ CORPUS_PAIRS = [
     ([9, [[1, [5], [5], [0, [], 0]], [0, [0, [], 0]]], [0, [], 0]], [0, [0, [], 0]]),   # Union([Int(5..5), Bool]) vs Bool
     ([7, [[[[0, S('x')], _I]]], [0, [], 0]], [7, [[[[0, S('x')], [1, [], [], [0, [V(1)], 0]]]]], [0, [], 0]]),  # required x vs defaulted x
     ([5, _I, 0, [], [0, [], 0]], [5, [1, [], [], [0, [V(1)], 1]], 0, [], [0, [], 0]]),                          # List(Int) vs List(frozen Int)
+    ([10, [1, [], 0]], [9, [[9, [_S, [10, [1, [], 0]]], [1, [[3, 6]], 1]], [6, [_I], 1, [], [0, [], 0]]], [1, [], 0]]),     # Any child, base Union with a frozen nested Union holding Any()
 ]
 
 CORPUS_APPLY = [
@@ -1119,6 +1133,31 @@ def bound_sweep_pairs(rng, thorough):
         if thorough or rng.random() < 0.5:
           cd = with_first_default(ct, vals)
           if cd is not None: out.append(('%s child=%s+default base=%s' % (name, cb, bb), cd, bt, vals))
+  # Enum candidate lists: every ordered pair of sets (typed / mixed-type, ==-equal values of different types), flat and
+  # nested; the candidate values are type-exact (1, 1.0 and True are three values)
+  def enum_tree(vals): return [4, [V(x) for x in vals], [int(None in vals), [], 0]]
+  num_probe = []
+  for z in (0, 64, 128, 160, 320):
+    num_probe += num_variants(z)
+  leaf_vals = num_probe + [V('a'), V('b'), V('x'), [0]]
+  STR = [3, _m0()]
+  enum_wrappers = [
+      ('Enum', lambda e: e, lambda x: x, 1.0),
+      ('List(Enum)', lambda e: [5, e, 0, [], _m0()], lambda x: [6, [x]], 0.25),
+      ('Dict.field:Enum', lambda e: [7, [[[[0, S('a')], e]]], _m0()], lambda x: [8, [[S('a'), x]]], 0.2),
+      ('Tuple([Enum])', lambda e: [6, [e], 1, [1], _m0()], lambda x: [7, [x]], 0.2),
+      ('Union([Enum, List])', lambda e: [9, [e, [5, [3, _m0()], 0, [], _m0()]], [e[-1][0], [], 0]], lambda x: x, 0.2),
+  ]
+  for name, wrap, wval, frac in enum_wrappers:
+    vals = [wval(x) for x in leaf_vals]
+    trees = []
+    for vs_ in ENUM_SETS:
+      c = canon(wrap(enum_tree(vs_)))
+      if c is not None: trees.append(c)
+    for ct in trees:
+      for bt in trees:
+        if not thorough and rng.random() > frac: continue
+        out.append(('%s pair' % name, ct, bt, vals))
   # numeric ranges incl. 0 and negative bounds
   for k, unit in ((1, 1), (2, 64)):
     rs = [(lo, hi) for lo in NUM_BOUNDS for hi in NUM_BOUNDS if lo is None or hi is None or lo <= hi]
